@@ -348,6 +348,26 @@ def gamma_egsf(ctx):
         _ret(ev.run_fn(fn, [obj], dict(a1=mine1, a2=mine2, smooth=smooth)), 'E_gsf')
         ctx.ob('GAMMA-EGSF', loc, 'smooth=%s: coordinate arrays passed in are left as given (the reduction by whole periods is done on a copy)' % smooth, equal(mine1, arr(list(a1)), deep=False) and equal(mine2, arr(list(a2)), deep=False),
                'a1 -> %s, a2 -> %s' % ([str(v) for v in mine1], [str(v) for v in mine2]), node=fn, key='caller arrays %s' % smooth)
+    # one Cartesian position a few periods outside the cell, converted by the surface's own pos_to_a12 (not a stub): what the conversion returns for a single position must
+    # be something the period reduction can work on (a 0-d array, not an immutable number)
+    class BxC(PyStub):
+        vects = np.array([[R(2), R(0), R(0)], [R(0), R(3), R(0)], [R(0), R(0), R(5)]], dtype=object)
+    for smooth in (False, True):
+        log = []
+        obj, F = mk(log, R(3, 4))
+        for k_ in ('pos_to_a12',):
+            obj.attrs.pop(k_)
+        obj.attrs.update({'a1vect': arr([R(1), R(0), R(0)]), 'a2vect': arr([R(0), R(1), R(0)]), 'box': BxC()})
+        ev = SymEval(aliases)
+        ev.np_override = {'numpy.piecewise': piecewise, 'numpy.ones_like': lambda v: arr([1] * max(1, len(np.ravel(v))))}
+        try:
+            r1 = _ret(ev.run_fn(fn, [obj], dict(pos=arr([R(5), R(-9, 4), R(0)]), smooth=smooth)), 'E_gsf')      # a1 = 5/2, a2 = -3/4
+            ok1, det1 = True, ''
+        except WouldRaise as e:
+            ok1, det1 = False, str(e)[:200]
+        except Opaque as e:
+            raise AnalysisError('E_gsf (single position through pos_to_a12, smooth=%s): %s' % (smooth, e))
+        ctx.ob('GAMMA-EGSF', loc, 'smooth=%s: a single Cartesian position outside the cell is converted and reduced by whole periods like a block of positions' % smooth, ok1, det1, node=fn, key='single pos %s' % smooth)
     # delta(): same routing and reduction, no blending
     dfn = ctx.fn(GS, 'GammaSurface.delta')
     dloc = GS + '::GammaSurface.delta'
@@ -375,6 +395,77 @@ def gamma_egsf(ctx):
         ctx.ob('GAMMA-EGSF', dloc, 'smooth=%s: coordinate arrays passed in are left as given' % smooth, equal(mine1, arr(list(give1)), deep=False) and equal(mine2, arr(list(give2)), deep=False), node=dfn, key='delta caller arrays %s' % smooth)
     paths = SymEval(aliases).run_fn(fn, [SymObj(cls, {'_GammaSurface__hasdata': False}, 'self')], dict(a1=[0], a2=[0]))
     ctx.ob('GAMMA-EGSF', loc, 'evaluation without data is refused', not [p for p in paths if p.done == 'return'], node=fn, key='nodata')
+
+
+def gamma_model(ctx):
+    """"survives a data-model round trip": GammaSurface.model() written with units other than the working ones and read back by GammaSurface.model(model=...) -- the writer and
+    the reader are evaluated on symbolic values with the unit functions of atomman.unitconvert interpreted (unit sizes are symbols), the container is the real DataModelDict"""
+    from .c10 import _ev, usym
+    fn = ctx.fn(GS, 'GammaSurface.model')
+    cls = ctx.fn(GS, 'GammaSurface')
+    loc = GS + '::GammaSurface.model'
+    V = symarray('v', (3, 3), real=True)
+    A1, A2 = symarray('s', (3,), real=True), symarray('t', (3,), real=True)
+    f1, f2 = symarray('f', (3,), real=True), symarray('g', (3,), real=True)
+    E, D = symarray('E', (3,), real=True), symarray('D', (3,), real=True)
+
+    class Bx(PyStub):
+        avect = property(lambda self: V[0].copy())
+        bvect = property(lambda self: V[1].copy())
+        cvect = property(lambda self: V[2].copy())
+        vects = property(lambda self: V.copy())
+
+    class Data(PyStub):
+        def __init__(self, with_delta):
+            self.a1, self.a2, self.E_gsf = f1.copy(), f2.copy(), E.copy()
+            if with_delta:
+                self.delta = D.copy()
+            self._d = with_delta
+
+        def __contains__(self, k):
+            return k in ('a1', 'a2', 'E_gsf') or (k == 'delta' and self._d)
+    n = 0
+    for with_delta in (True, False):
+        tag = 'with plane separations' if with_delta else 'energies only'
+        n += 1
+        me = SymObj(cls, {'box': Bx(), 'a1vect': A1.copy(), 'a2vect': A2.copy(), 'data': Data(with_delta), '_GammaSurface__hasdata': True}, 'self')
+        ev = _ev(ctx, GS)
+        try:
+            w = [q for q in ev.run_fn(fn, [me], {'length_unit': 'nm', 'energyperarea_unit': 'mJ/m^2'}) if q.done == 'return']
+        except WouldRaise as e:
+            ctx.ob('GAMMA-MODEL', loc, '%s: the model is written' % tag, False, str(e)[:200], node=fn, key='model writes ' + tag)
+            continue
+        except Opaque as e:
+            raise AnalysisError('GammaSurface.model (write, %s): %s' % (tag, e))
+        ctx.need(len(w) == 1, 'GammaSurface.model() does not reduce to one path (%s)' % tag)
+        m = w[0].ret
+        got = {}
+
+        def mkbox(**kw):
+            got['box'] = kw
+            return 'BOX'
+        rd = SymObj(cls, {'set': lambda *a, **k: got.update(args=a, kw=k)}, 'self')
+        ev = _ev(ctx, GS, {'Box': mkbox})
+        try:
+            r = [q for q in ev.run_fn(fn, [rd], {'model': m}) if q.done == 'return']
+        except WouldRaise as e:
+            ctx.ob('GAMMA-MODEL', loc, '%s: the model written is read back' % tag, False, str(e)[:200], node=fn, key='model reads ' + tag)
+            continue
+        except Opaque as e:
+            raise AnalysisError('GammaSurface.model (read, %s): %s' % (tag, e))
+        bx = got.get('box') or {}
+        okb = all(k in bx and np.shape(bx[k]) == (3,) and equal(np.asarray(bx[k], dtype=object), V[i], deep=False) for i, k in enumerate(('avect', 'bvect', 'cvect')))
+        ctx.ob('GAMMA-MODEL', loc, '%s, written in nm and mJ/m^2: the cell read back is the cell written (what the writer does to the cell vectors the reader undoes)' % tag, bool(okb),
+               'read back %s' % ({k: [str(x) for x in np.ravel(np.asarray(v, dtype=object))] for k, v in bx.items()},), node=fn, key='model box ' + tag)
+        a = got.get('args') or ()
+        kw = got.get('kw') or {}
+        vals = dict(zip(('a1vect', 'a2vect', 'a1', 'a2', 'E_gsf'), a))
+        vals.update(kw)
+        okv = all(k in vals and vals[k] is not None and equal(np.asarray(vals[k], dtype=object), want, deep=False) for k, want in (('a1vect', A1), ('a2vect', A2), ('a1', f1), ('a2', f2), ('E_gsf', E))) \
+            and vals.get('box') == 'BOX' and ((vals.get('delta') is not None and equal(np.asarray(vals['delta'], dtype=object), D, deep=False)) if with_delta else vals.get('delta') is None)
+        ctx.ob('GAMMA-MODEL', loc, '%s, written in nm and mJ/m^2: shift vectors, fractional shifts, energies%s read back equal those written (units undone)' % (tag, ' and plane separations' if with_delta else ''), bool(okv),
+               str({k: np.shape(v) if v is not None and not isinstance(v, str) else v for k, v in vals.items()}), node=fn, key='model values ' + tag)
+    ctx.floor('GAMMA-MODEL', n, 2)
 
 
 def _pnobj(ctx, **attrs):
@@ -733,4 +824,4 @@ def run(ctx):
                        'the arctangent pair is differentiated by the CAS. Not decided: interpolation accuracy, energy decrease under minimisation, the classical half-width.')
     # "accepts a position given in fractional, Cartesian or plotting coordinates interchangeably": every coordinate parameter is array-like (lists and tuples included)
     from .. import lints
-    ctx.run_rules([gamma_set, gamma_conv, gamma_fit, gamma_egsf, pn_terms, pn_init, pn_solve, arctan, grids, api, lambda c: lints.arraylike(c, 'ARRAY-LIKE', GS, floor=40)])
+    ctx.run_rules([gamma_set, gamma_conv, gamma_fit, gamma_egsf, gamma_model, pn_terms, pn_init, pn_solve, arctan, grids, api, lambda c: lints.arraylike(c, 'ARRAY-LIKE', GS, floor=40)])
